@@ -843,7 +843,7 @@ def gen_case(rng, tier):
 def generate(ctx):
     rng = ctx.rng
     quick = ctx.tier == "quick"
-    n_hist = 220 if quick else 2000
+    n_hist = 500 if quick else 3000
     for i in range(n_hist):
         c, strata = gen_case(rng, ctx.tier)
         ctx.count("history", ("h12", c["ny"], c["nx"], c["pid"], c["mask"], repr(c["pl"]), repr(c["ops"])),
@@ -854,6 +854,7 @@ def generate(ctx):
         if i % 50 == 0:
             ctx.sample({"site": "history", **c})
         yield "history", c
+        ctx.count("invariant", None)
         yield "invariant", copy.deepcopy(c)
     # PhaseList.__getitem__ on its own
     for i in range(40 if quick else 300):
